@@ -192,6 +192,8 @@ def _bounded_above(arg, f):
 
 
 def classify_denominator(pm, u, f, den, te):
+    from ..pm import canon_node
+    den = canon_node(den) if isinstance(den, ast.expr) else den
     s = norm_src(den)
     core = den
     if isinstance(core, ast.Constant) and isinstance(core.value, (int, float)) and core.value != 0:
